@@ -79,7 +79,7 @@ func (c *Ctx) siteName(callee string) string {
 }
 
 // callSiteAsserts: assertions the caller's contract attaches to calls of key.
-func (c *Ctx) callSiteAsserts(fr *Frame, st *State, reach T, key string, pos token.Pos) {
+func (c *Ctx) callSiteAsserts(fr *Frame, st *State, reach T, key string, pos token.Pos, args []Val) {
 	if fr.ct == nil || len(fr.ct.Sites) == 0 {
 		return
 	}
@@ -97,6 +97,12 @@ func (c *Ctx) callSiteAsserts(fr *Frame, st *State, reach T, key string, pos tok
 		env := c.specEnv(fr, st)
 		env.params = env.vars
 		env.vars = map[string]Val{}
+		// the actual arguments of the call: arg0, arg1, ...
+		for i, a := range args {
+			if len(a.L) > 0 {
+				env.vars[fmt.Sprintf("arg%d", i)] = a
+			}
+		}
 		if fr.curBlock != nil {
 			h := fr.innerLoop[fr.curBlock]
 			if h == nil {
@@ -124,7 +130,7 @@ func (c *Ctx) callSiteAsserts(fr *Frame, st *State, reach T, key string, pos tok
 
 func (c *Ctx) staticCall(fr *Frame, st *State, reach T, fn *ssa.Function, args []Val, cl *closure, pos token.Pos, cc *ssa.CallCommon) Val {
 	key := funcKey(fn)
-	c.callSiteAsserts(fr, st, reach, key, pos)
+	c.callSiteAsserts(fr, st, reach, key, pos, args)
 	if fn.Synthetic != "" && strings.Contains(fn.Synthetic, "bound method wrapper") {
 		// $bound wrapper: receiver is the single free variable
 		panic(unsupported("bound method wrapper call " + key))
